@@ -198,6 +198,28 @@ pub fn gen(rng: &mut Rng, index: u64) -> String {
         return gen_impl(rng);
     }
     let k = *rng.pick(&[3i64, 4, 4, 6]);
+    if rng.chance(1, 80) {
+        // one operand with hundreds of segments against a tiny one (very different segment counts)
+        use geo_types::*;
+        let m = (long_count(rng) as i64 / 2).min(160);
+        let ring = parabola_ring(m);
+        let big = if rng.chance(2, 3) { Geometry::Polygon(Polygon::new(LineString(ring), vec![])) } else { Geometry::LineString(LineString(ring)) };
+        let x = rng.range(-m + 1, m - 1);
+        let top = m * m;
+        let small = match rng.below(5) {
+            0 => Geometry::Line(Line::new(c(x, -1), c(x, top + 1))),                   // vertical probe through the polygon
+            1 => Geometry::Line(Line::new(c(-m - 1, x * x), c(m + 1, x * x))),           // horizontal probe through two vertices
+            2 => Geometry::Rect(Rect::new(c(x, x * x), c(x + 1, top + 2))),
+            3 => Geometry::Point(Point(c(x, x * x))),
+            _ => Geometry::LineString(LineString(vec![c(x, x * x + 1), c(x, top - 1), c(x + 1, top - 1)])),
+        };
+        let b2 = variant(rng, &small);
+        return if rng.chance(1, 2) {
+            format!("C01.rel {} {} {}", proto::geom(&small), proto::geom(&b2), proto::geom(&big))
+        } else {
+            format!("C01.rel {} {} {}", proto::geom(&big), proto::geom(&big), proto::geom(&small))
+        };
+    }
     if rng.chance(1, 14) {
         let (a, b) = narrow_fan(rng);
         let a2 = variant(rng, &a);
